@@ -411,6 +411,61 @@ def crc_start_flow(ck, P, R="FLOW/crc-start"):
         ck.decide(ok, R, "Crc32Fold::fold:fallback", "value = kernel(value, src)", "a fallback of Crc32Fold::fold does not continue from self.value", where(fo))
 
 
+def start_value_uses(ck, P, R="FLOW/crc-start"):
+    """The start value handed to the PCLMULQDQ fold is data: it is xor-ed into the first vector and compared with the identity
+    (0), nothing else.  A length, a branch threshold or an index derived from the *value* of a checksum (its leading zeros, its
+    byte count) makes the result depend on how many significant bytes the running CRC happens to have."""
+    fs = [f for f in P.fns.values() if f.path.endswith("crc32::pclmulqdq::Accumulator::fold_help")]
+    if not ck.anchor("fn Accumulator::fold_help", len(fs) == 1):
+        return
+    f = fs[0]
+    ck.use_fn(f)
+    roots = [i for i, l in enumerate(f.locals) if l.get("name") == "init_crc"]
+    if not ck.anchor("parameter init_crc of fold_help", len(roots) == 1):
+        return
+    tainted, work = set(roots), list(roots)
+    bad = []
+
+    def mentions(node, loc):
+        if isinstance(node, dict):
+            if node.get("l") == loc and "k" in node and node["k"] in ("copy", "move"):
+                return True
+            if node.get("l") == loc and "p" not in node and set(node) <= {"l", "k"}:
+                return True
+            return any(mentions(v, loc) for v in node.values())
+        if isinstance(node, list):
+            return any(mentions(v, loc) for v in node)
+        return False
+    while work:
+        loc = work.pop()
+        for b in sorted(f.live):
+            for st in f.blocks[b]["s"]:
+                if st.get("k") != "assign" or not mentions(st.get("rv"), loc):
+                    continue
+                rv, lhs = st["rv"], st["lhs"]
+                k = rv.get("k")
+                if k in ("use", "cast") and set(lhs) == {"l"}:
+                    if lhs["l"] not in tainted:
+                        tainted.add(lhs["l"]); work.append(lhs["l"])
+                elif k == "bin" and rv.get("op") in ("Eq", "Ne"):
+                    pass                        # compared with the identity
+                elif k == "agg":
+                    pass                        # becomes a lane of the vector that is xor-ed in
+                elif k == "ref":
+                    pass                        # handed on by reference to the fold steps of this module
+                else:
+                    bad.append((st.get("line"), "%s %s" % (k, rv.get("op", ""))))
+            t = f.blocks[b]["t"]
+            if t.get("k") == "call" and mentions(t.get("args"), loc):
+                callee = (t.get("func") or {}).get("fn") or ""
+                if not (callee.startswith(Z + "crc32::") or callee.endswith("::reg")):
+                    bad.append((t.get("line"), "call " + callee.split("::")[-1]))
+    ck.decide(not bad, R, "fold_help:start-is-data", "init_crc is only xor-ed in, compared with 0 and handed on",
+              "fold_help derives something else from the start value (%s): a decision that depends on how many significant bytes the "
+              "running CRC has gives different results for different start values" % ", ".join(sorted({x[1].strip() for x in bad})),
+              where(f, bad[0][0] if bad else None))
+
+
 def run(ck):
     P = prog("K1")
     ck.configs.add("K1")
@@ -418,6 +473,7 @@ def run(ck):
     adler_consts(ck, P)
     adler_combine_proof(ck, P)
     crc_start_flow(ck, P)
+    start_value_uses(ck, P)
     adler_final_reduction(ck, P)
     k = adler_kernels(ck, P, "K1")
     ck.floor("ATOM/adler-stride:K1", k, 2)
